@@ -314,7 +314,7 @@ def expr_b(draw, env, depth, pure=True):
         return ["f", fn, [], [_hdr(draw, i, c)]]
     if k == "allmissing":
         fn = draw(st.sampled_from(["all", "missing"]))
-        n = draw(st.integers(2, 3))
+        n = draw(st.sampled_from([0, 2, 2, 3]))   # 0: the whole row against the header row
         return ["f", fn, [], [_hdr(draw, *draw(st.sampled_from(list(enumerate(env.cols))))) for _ in range(n)]]
     if k == "in" and env.col(["int"], dense=True) and draw(st.booleans()):
         # numeric cells against bare numeric terms: a term is treated as a '|'-delimited string of values
